@@ -17,7 +17,7 @@ REACH_TARGETS = [('EKF.process_model', 'formak.python:ExtendedKalmanFilter.proce
 LEVEL = "exploration"
 RULE = ("random filter definitions (0-3 controls incl. none, with/without calibration, unequal "
         "per-control noise) x SPD covariances (identity, diagonal, random, near-singular cond<=1e6, "
-        "scaled; 25% handed over as int64 / float32 arrays) x named points; noise 1e-10..4 incl. Fraction/Rational "
+        "scaled; 25% handed over as int64 / float32 arrays; steps of 2e-9..1e-8 with variances ~1e-18 judged at that magnitude) x named points; noise 1e-10..4 incl. Fraction/Rational "
         "values; unit kinds: direct calls (+ purity, bitwise idempotence, keyword-argument calls, results "
         "must not share storage, a result fed back in leaves earlier results unchanged), calls "
         "provoked by runtime.ManagedFilter.tick, by SklearnEKFAdapter.transform and by .fit; every "
@@ -210,6 +210,35 @@ def _direct(R, rng, defn, b, cse, ctx):
                               "covariance_in": P.tolist(),
                               "state_out": monitors.vec_dict(r1.state),
                               "covariance_out": r1.covariance.data.tolist()})
+
+
+    # very short steps of a problem in small units (dt ~ 1e-8, variances ~ 1e-18): every entry of the control
+    # Jacobian is tiny and V M V^T is still the larger part of the predicted covariance; judged relative to the
+    # magnitude of the problem, not to 1
+    ectx = getattr(ekf, "_vf_ctx", None)
+    if defn["control"] and ectx is not None and any(v_ > 0 for v_ in defn["process_noise"].values()):
+        try:
+            for rep in range(2):
+                pt = gen.point(rng, defn, scale=1.0)
+                dt = rng.choice([1e-8, 5e-9, 2e-9])
+                pt[defn["dt"]] = dt
+                trial = dict(pt, **defn["calibration_map"])
+                if gen.near_kink(defn, trial) or gen.outside_domain(defn, pt, pt, dt):
+                    continue
+                sc = rng.choice([1e-17, 1e-18, 1e-20])
+                ectx.floor = sc
+                P = gen.spd(rng, len(names)) * sc
+                st = ekf.State(**{s_: pt[s_] for s_ in defn["state"]})
+                cov = monitors.cov_from_matrix(ekf.Covariance, P, names)
+                ct = ekf.Control(**{c: pt[c] for c in defn["control"]})
+                try:
+                    ekf.process_model(dt, st, cov, ct)
+                    R.stats.inc("short_steps_in_small_units")
+                except Exception as e:  # noqa: BLE001
+                    R.add([K.V(K.exc_key("process_model", e), f"process_model raised for a valid input (short step, small units): {K.exc_text(e)}",
+                               defn=defn, point=pt, covariance=P.tolist(), traceback=K.tb_text(e))])
+        finally:
+            ectx.floor = 1.0
 
 
 def _runtime(R, rng, defn, b, cse):
